@@ -351,9 +351,15 @@ func dialerHist(depth int) {
 					w.policy = append(w.policy, pol)
 				}
 				before := w.ep.NumPipes()
+				lastp := w.ep.PipeAt(before - 1)
+				owed := lastp != nil && !lastp.Alive()
 				kit.Sleep(150 * time.Millisecond)
 				if w.ep.NumPipes() > before {
 					kit.Count("redialled")
+				} else if owed {
+					// (no maximum reconnect time is set: the delay does not grow, whatever became of
+					// the earlier connections - closed in a callback, dropped, refused)
+					kit.Failf("dialer-slow-to-redial", "the dialer's last connection has gone, the peer has been listening for 150 ms (reconnect time 100 ms, no maximum set), and no new connection was made; connections so far: %d", before)
 				}
 			}})
 		}
